@@ -2,6 +2,7 @@ import HdVerif.Proofs.SREvidence
 import HdVerif.Proofs.SREvidenceTie
 import HdVerif.Proofs.SRDocument
 import HdVerif.Proofs.SRTree
+import HdVerif.Proofs.SRTreeItem
 import HdVerif.Generated.T15c
 import HdVerif.Generated.T15k
 import HdVerif.Generated.T15l
@@ -1291,6 +1292,18 @@ theorem ko_guards_are_the_source_guards (refs : List Ref) (hasDesc : Bool) (evd 
     have := (hst cur.length).mp hg
     simp [this]
 
+open HdVerif.SRTree in
+/-- **The two views of a content tree fit together.**  `toItem` is the view of a tree of data sets that the decision core
+`buildSR` (evidence, SCOORD3D guard, acceptance — all the theorems above) looks at: value type, name, relationship type,
+content sequence.  Every tree the tree model accepts passes the conversion step of the decision core (`convertTree`,
+`Convertible` in `accepted_iff`), has a root without relationship type and of value type CONTAINER — so the two hand-written
+models never disagree on a tree in the direction that matters (the tree model demands strictly more: required attributes,
+concept names).  Proof: every item below the `Item` view is the view of a reachable data set (`below_toItem`, induction on
+`Below`), and reachable data sets of an accepted tree are acceptable (`wellFormed_reach`). -/
+theorem tree_model_refines_document_model (n : Node) (h : ∃ n', convertRoot n = .ok n') :
+    convertTree (toItem n) = .ok () ∧ (toItem n).rel = none ∧ (toItem n).vt = "CONTAINER" :=
+  convertRoot_refines n h
+
 /-- non-vacuity: a three-level tree (container > container > NUM, IMAGE without concept name > TEXT) is accepted, the IMAGE
 gets the default name, everything else is unchanged; the document data set parses back to the same root; a NUM item without
 `MeasuredValueSequence` at depth 2 is refused -/
@@ -1320,5 +1333,8 @@ example : ((convertRoot exNode).bind (fun t => parseDoc (writeDoc [("SOPClassUID
     .ok (some "1500", none, 1) := by decide +kernel
 open HdVerif.SRTree in
 example : (parseDoc (.mk [("SOPClassUID", "x")] false [])).toBool = false := by decide +kernel
+open HdVerif.SRTree in
+example : convertTree (toItem exNode) = .ok () ∧ (descendants (toItem exNode)).map Item.vt = ["CONTAINER", "NUM", "IMAGE", "TEXT"] := by
+  decide +kernel
 
 end HdVerif.C15
